@@ -141,7 +141,7 @@ def raise_site(e):
     fr = [f for f in traceback.extract_tb(e.__traceback__) if '/tamoc/' in f.filename]
     if fr:
         return '%s@%s:%s' % (type(e).__name__, fr[-1].filename.split('/')[-1], fr[-1].name)
-    return '%s@harness' % type(e).__name__
+    return '%s@reading-the-object' % type(e).__name__
 
 
 def note_raise(ctx, kind, method, rk, first, descr, args, e, hist):
@@ -860,25 +860,75 @@ def op_value(r, op, waters, currents):
     return r.random() < 0.5
 
 
+def _numdict(d):
+    """a (nested) dict of numbers / strings flattened to a sorted list of (path, value)"""
+    out = []
+    for k in sorted(d, key=str):
+        v = d[k]
+        if isinstance(v, dict):
+            out += [('%s.%s' % (k, p), x) for p, x in _numdict(v)]
+        elif isinstance(v, (int, float, np.generic)) and not isinstance(v, bool):
+            out.append((str(k), float(v)))
+        elif isinstance(v, (list, tuple, np.ndarray)):
+            try:
+                out.append((str(k), [float(x) for x in np.asarray(v, dtype=float).ravel()]))
+            except (TypeError, ValueError):
+                out.append((str(k), str([str(x) for x in np.asarray(v, dtype=object).ravel()])))
+        else:
+            out.append((str(k), str(v)))
+    return out
+
+
+DBM_ARRAYS = ('M', 'Pc', 'Tc', 'Vc', 'Tb', 'Vb', 'omega', 'kh_0', 'neg_dH_solR', 'nu_bar', 'B', 'dE', 'K_salt', 'k_bio', 't_bio',
+              'C_pen', 'C_pen_T', 'delta', 'delta_groups')
+
+
+def _dbm_fp(fp, name, o):
+    fp[name + '.composition'] = list(o.composition)
+    fp[name + '.scalars'] = [float(getattr(o, k)) for k in ('calc_delta', 'fp_type', 'isair') if hasattr(o, k)]
+    for k in DBM_ARRAYS:
+        if hasattr(o, k):
+            fp['%s.%s' % (name, k)] = [float(v) for v in np.asarray(getattr(o, k), dtype=float).ravel()]
+    ud = getattr(o, 'user_data', None) or {}
+    nd = _numdict(ud)
+    fp[name + '.user_data'] = [p for p, _v in nd]
+    fp[name + '.user_data.values'] = [x for _p, v in nd for x in (v if isinstance(v, list) else [v]) if isinstance(x, float)]
+
+
 def blowout_fingerprint(b):
-    """everything a simulation started from this object would read"""
+    """everything a simulation started from this object would read: the parameters and flags, the oil (composition, every
+    chemical array, user_data), the gas / liquid particle objects, every particle of disp_phases with all its attributes, the
+    atmospheric-gas list, the size distributions and the WHOLE profile (names, units, range, every stored column)"""
     fp = {}
     for k in ('z0', 'd0', 'q_oil', 'gor', 'x0', 'y0', 'u0', 'phi_0', 'theta_0', 'num_gas_elements', 'num_oil_elements', 'track',
               'q_type', 'new_oil', 'update', 'T0', 'S0', 'P0', 'Sj', 'Tj', 'cj', 'dt_max', 'sd_max'):
         v = getattr(b, k)
         fp[k] = None if v is None else (float(v) if not isinstance(v, bool) else v)
+    fp['ca'] = list(b.ca)
+    fp['tracers'] = list(b.tracers)
     fp['mass_flux'] = [float(v) for v in np.atleast_1d(b.mass_flux)]
-    fp['oil.composition'] = list(b.oil.composition)
-    fp['oil.delta'] = [float(v) for v in np.asarray(b.oil.delta).ravel()]
+    _dbm_fp(fp, 'oil', b.oil)
+    _dbm_fp(fp, 'gas', b.gas)
+    _dbm_fp(fp, 'liq', b.liq)
     for k in ('d_gas', 'vf_gas', 'd_liq', 'vf_liq'):
         fp[k] = [float(v) for v in np.atleast_1d(getattr(b, k))]
     fp['n_particles'] = len(b.disp_phases)
     for i, p in enumerate(b.disp_phases):
         fp['particle%d.m0' % i] = [float(v) for v in np.atleast_1d(p.m0)]
         fp['particle%d' % i] = [float(p.nb0), float(p.de), float(p.T0), float(p.lambda_1), float(p.particle.fp_type)]
-    zq = [b.z0, 0.5 * b.z0, float(b.profile.z_min), float(b.profile.z_max)]
+        fp['particle%d.state' % i] = [float(getattr(p, k)) for k in ('x', 'y', 'z', 'K', 'K_T', 'fdis', 't_hyd', 'lag_time', 'cp', 'T',
+                                                                    'us', 'rho_p', 'A', 'beta_T', 't', 'integrate', 'sim_stored', 'farfield')]
+        fp['particle%d.arrays' % i] = [float(v) for k in ('m', 'Cs', 'beta', 'k_bio', 'diss_indices')
+                                       for v in np.atleast_1d(np.asarray(getattr(p, k), dtype=float))]
+        fp['particle%d.composition' % i] = list(p.composition)
+    prf = b.profile
+    fp['profile.range'] = [float(prf.z_min), float(prf.z_max)]
+    fp['profile.names'] = list(prf.f_names) + list(prf.f_units) + list(prf.ztsp) + list(prf.ztsp_units) + list(prf.chem_names) + \
+        list(prf.chem_units)
+    fp['profile.columns'] = [float(v) for v in np.asarray(prf.interp_data, dtype=float).ravel()]
+    zq = [b.z0, 0.5 * b.z0, float(prf.z_min), float(prf.z_max)]
     with S.quiet():
-        fp['profile'] = [float(v) for z in zq for v in b.profile.get_values(z, ['temperature', 'salinity', 'pressure', 'ua', 'va'])]
+        fp['profile'] = [float(v) for z in zq for v in prf.get_values(z, ['temperature', 'salinity', 'pressure', 'ua', 'va'])]
     return fp
 
 
@@ -902,19 +952,64 @@ def fp_diff(a, b, tol=1e-12):
 
 def blowout_sequences(ctx, r, n, lines, owners):
     from tamoc import blowout
-    prfs = [S.synthetic_profile(r, z_max=1500.) for _ in range(2)]
+    # MASTER inputs: never handed to tamoc.  Every Blowout (history object, fresh-before, fresh-after) and every update call
+    # gets its OWN deep copy (its own ambient.Profile built from a copy of the raw data), so that an in-place edit of an
+    # input by one object cannot show on the other side of the comparison; the copies handed to the history object are
+    # compared afterwards with what they were when handed over.
+    from tamoc import ambient
+
+    def raw_profile():
+        z = np.linspace(0., 1500., r.randint(15, 45))
+        Ts, Tb = 273.15 + r.uniform(8., 28.), 273.15 + r.uniform(1.5, 5.)
+        T = Tb + (Ts - Tb) * np.exp(-z / r.uniform(80., 600.))
+        Sal = r.uniform(32., 35.) + r.uniform(0.2, 1.5) * (1. - np.exp(-z / r.uniform(200., 900.)))
+        return np.vstack([z, T, Sal]).T
+    prfs = [('profile', raw_profile()) for _ in range(2)]
     # surface-water dicts: temperature in deg C (ambient.get_world_ocean adds 273.15), a cold one (clips the upper
     # world-ocean temperatures) with a scaled salinity, and a warm one
     waters = prfs + [None, {'temperature': r.uniform(3., 10.), 'salinity': r.uniform(33., 34.5)},
                      {'temperature': r.uniform(18., 26.), 'salinity': r.uniform(35., 36.5)}]
     I_NONE, I_COLD = len(prfs), len(prfs) + 1
     ctx.blow_dict_then_none = 0
+    idmap = {}          # id(copy handed to tamoc) -> (kind, index)
+    alive = []          # keeps the copies alive, so that ids are not reused
+
+    def in_snap(kind, o):
+        return snap(o.__dict__ if kind == 'water' and hasattr(o, '__dict__') else o)
+
+    def give(kind, i, log=None):
+        """a fresh deep copy of master input i of this kind, registered under its identity"""
+        if kind == 'substance':
+            o = copy.deepcopy(SUBSTANCES[i])
+        elif kind == 'current':
+            o = copy.deepcopy(currents[i])
+        else:
+            w = waters[i]
+            if isinstance(w, tuple):
+                with S.quiet():
+                    o = ambient.Profile(w[1].copy(), ztsp=['z', 'temperature', 'salinity', 'pressure'],
+                                        ztsp_units=['m', 'K', 'psu', 'Pa'])
+            else:
+                o = copy.deepcopy(w)
+        if o is not None and not isinstance(o, float):
+            idmap[id(o)] = (kind, i)
+            alive.append(o)
+        if log is not None and o is not None:
+            log.append((kind, i, o, in_snap(kind, o)))
+        return o
+
+    def index_of(kind, o):
+        if o is None:
+            return I_NONE if kind == 'water' else -1
+        if isinstance(o, float):
+            return [i for i, c in enumerate(currents) if isinstance(c, float) and c == o][0]
+        return idmap.get(id(o), (None, -1))[1]
     currents = [np.array([0.05, 0., 0.]), 0.12, np.array([0.08, -0.03])]
     calls = []
     orig_get_oil = blowout.dbm_utilities.get_oil
 
     def get_oil(substance, q_oil, gor, ca=[], fp_type=1):
-        calls.append((substance, float(q_oil), float(gor), fp_type))
+        calls.append((index_of('substance', substance), float(q_oil), float(gor), fp_type))
         return orig_get_oil(substance, q_oil, gor, ca, fp_type)
     blowout.dbm_utilities.get_oil = get_oil
     ctx.planned['blowout'] = n
@@ -971,23 +1066,21 @@ def blowout_sequences(ctx, r, n, lines, owners):
                     ops.insert(r.randint(pos + 1, len(ops)), (which, r.randint(1, 5)))
                 ops = ops[:8]
 
-            def build(par):
+            def build(par, log=None):
                 kw = dict(par)
-                kw['substance'] = SUBSTANCES[par['substance']]
-                kw['water'] = waters[par['water']]
-                kw['current'] = currents[par['current']]
+                kw['substance'] = give('substance', par['substance'], log)
+                kw['water'] = give('water', par['water'], log)
+                kw['current'] = give('current', par['current'], log)
                 kw.pop('track')
                 with S.quiet():
                     return blowout.Blowout(**kw)
 
             def ident(b):
                 """the parameter attributes as protocol values (ids for the opaque data)"""
-                sub = [i for i, s in enumerate(SUBSTANCES) if s is b.substance]
-                wat = [i for i, w in enumerate(waters) if w is b.water]
-                cur = [i for i, c in enumerate(currents) if c is b.current]
-                return [float(b.z0), float(b.d0), sub[0] if sub else -1, float(b.q_oil), float(b.gor), float(b.x0), float(b.y0),
-                        float('nan') if b.u0 is None else float(b.u0), float(b.phi_0), float(b.theta_0), int(b.num_gas_elements),
-                        int(b.num_oil_elements), wat[0] if wat else -1, cur[0] if cur else -1, int(bool(b.track))]
+                return [float(b.z0), float(b.d0), index_of('substance', b.substance), float(b.q_oil), float(b.gor), float(b.x0),
+                        float(b.y0), float('nan') if b.u0 is None else float(b.u0), float(b.phi_0), float(b.theta_0),
+                        int(b.num_gas_elements), int(b.num_oil_elements), index_of('water', b.water), index_of('current', b.current),
+                        int(bool(b.track))]
             descr = dict(initial=dict(init), ops=[(o, (v if not isinstance(v, np.ndarray) else v.tolist())) for o, v in ops])
             final = dict(init)
             for op, v in ops:
@@ -1007,7 +1100,8 @@ def blowout_sequences(ctx, r, n, lines, owners):
                 fresh0 = build_fresh()                      # the fresh object BEFORE the history is played
                 fp0 = blowout_fingerprint(fresh0)
                 del calls[:]
-                b = build(init)
+                hist_inputs = []
+                b = build(init, hist_inputs)
             except Exception as e:
                 zero_bins = init['num_oil_elements'] == 0 or final['num_oil_elements'] == 0
                 why = ('gas flow-rate convention without gas at standard conditions' if zero_bins and isinstance(e, ZeroDivisionError)
@@ -1024,11 +1118,11 @@ def blowout_sequences(ctx, r, n, lines, owners):
                 for op, v in ops:
                     val = v
                     if op == 'substance':
-                        val = SUBSTANCES[v]
+                        val = give('substance', v, hist_inputs)
                     elif op == 'water_data':
-                        val = waters[v]
+                        val = give('water', v, hist_inputs)
                     elif op == 'current_data':
-                        val = currents[v]
+                        val = give('current', v, hist_inputs)
                     getattr(b, 'update_' + op)(val)
                     trace.append([int(b.update), int(b.new_oil), int(b.q_type)] + ident(b))
                 ncalls0 = len(calls)
@@ -1068,6 +1162,13 @@ def blowout_sequences(ctx, r, n, lines, owners):
             if len([s for s in ctx.samples if 'ops' in s]) < 2:
                 ctx.sample({'initial': descr['initial'], 'ops': descr['ops'], 'mass_flux_updated': fpr['mass_flux'][:3],
                             'mass_flux_fresh': fpf['mass_flux'][:3]})
+            for kind_i, idx_i, o_i, s_i in hist_inputs:
+                now = in_snap(kind_i, o_i)
+                if not same(s_i, now):
+                    what_changed = changed(s_i[1], now[1]) if s_i[0] == 'd' and now[0] == 'd' else []
+                    ctx.violation('input-mutated:Blowout:%s' % kind_i,
+                                  'the Blowout (constructor, an update method or the refresh) altered an input object of the caller in place',
+                                  dict(descr, input_kind=kind_i, input_index=idx_i, changed=what_changed[:6]))
             wseq = [v for o, v in ops if o == 'water_data']
             if any(isinstance(waters[a], dict) and any(waters[b] is None for b in wseq[i + 1:]) for i, a in enumerate(wseq)):
                 ctx.blow_dict_then_none += 1
@@ -1103,10 +1204,10 @@ def blowout_sequences(ctx, r, n, lines, owners):
                     v = float(v)
                 args += [op, v]
             lines.append(req('B19.run', *args))
-            sub_of = lambda s: [i for i, q in enumerate(SUBSTANCES) if q is s][0]
             owners.append(('blowout', trace, new_oil_before, len(refreshed_calls),
-                           [float(sub_of(last_call[0])), last_call[1], last_call[2], 0., float(last_call[3])],
-                           [float(sub_of(fresh_call[0])), fresh_call[1], fresh_call[2], 0., float(fresh_call[3])], descr))
+                           [float(last_call[0]), last_call[1], last_call[2], 0., float(last_call[3])],
+                           [float(fresh_call[0]), fresh_call[1], fresh_call[2], 0., float(fresh_call[3])], descr))
+            del alive[:-80]
     finally:
         blowout.dbm_utilities.get_oil = orig_get_oil
 
@@ -1142,8 +1243,8 @@ def reference_set():
         for name, w in [('Blowout(water=None)', None)] + [('Blowout(water=dict-T%g-S%g)' % (d['temperature'], d['salinity']), dict(d)) for d in REF_DICTS]:
             b = blowout.Blowout(water=w, **kw)
             f = blowout_fingerprint(b)
-            ref[name] = c09.flat(tuple(f[k] for k in sorted(f) if isinstance(f[k], (float, list)) and f[k] is not None
-                                       and k != 'oil.composition'))
+            ref[name] = c09.flat(tuple(f[k] for k in sorted(f) if isinstance(f[k], float) or
+                                       (isinstance(f[k], list) and all(isinstance(x, float) for x in f[k]))))
     return ref
 
 
